@@ -427,6 +427,14 @@ def m_rmdir(I, args, kwargs):
     return None
 
 
+def m_isdir(I, args, kwargs):
+    h = I.cfg.get("isdir")
+    if h is not None:
+        return h(I, path_key(args[0]))
+    key = path_key(args[0])
+    return any(st.exists and k.startswith(key + "/") for k, st in I.disk.items())
+
+
 def m_make_dirs(I, args, kwargs):
     I.ghost.setdefault("make_dirs", []).append(path_key(args[0]))
     return None
@@ -1081,7 +1089,7 @@ def build_table():
         _os.path.exists: m_exists, _os.path.getsize: m_getsize, _os.unlink: m_unlink, _os.remove: m_unlink,
         _os.stat: m_stat, _time.time: m_time,
         _os.path.join: m_path_join, _os.path.dirname: m_path_dirname, _os.path.split: m_path_split,
-        _os.path.basename: m_path_basename, _os.listdir: m_listdir, _os.rmdir: m_rmdir, _os.rename: m_rename,
+        _os.path.basename: m_path_basename, _os.path.isdir: m_isdir, _os.listdir: m_listdir, _os.rmdir: m_rmdir, _os.rename: m_rename,
     }
     try:
         from allmydata.util import fileutil
